@@ -712,6 +712,14 @@ def gen_c10(rng) -> Dict[str, Any]:
             continue
         used.add(r[:2])
         recs.append(r)
+    if recs and rng.random() < 0.3:
+        # two slots programmed alike: records that differ in nothing but the slot id are still two schedules
+        # ("one schedule per distinct slot id"; seeded change c10i-round9 de-duplicated them by content)
+        twin = rng.choice(recs)
+        free = [s for s in range(256) if "%02x" % s not in used]
+        slot = "%02x" % rng.choice(free[:8] if rng.random() < 0.7 else free)
+        used.add(slot)
+        recs.insert(rng.randrange(len(recs) + 1), slot + twin[2:])
     devices[0]["schedules"] = recs
     steps: List[dict] = [{"kind": "connect", "client": 0}]
     for _ in range(rng.randrange(1, 7)):
